@@ -1,1 +1,4 @@
 pub mod scan;
+pub mod frame;
+pub mod events;
+pub mod compose;
